@@ -267,7 +267,7 @@ fn gen_traffic(ctx: &GenCtx) -> Vec<Value> {
 }
 
 /// encrypt an arbitrary inner packet stream under the message's session key, with real rpgp
-fn encrypt_inner(inner: &[u8], cfg: &Value, sk: &pgp::composed::PlainSessionKey, rng_key: u64) -> Option<Vec<u8>> {
+pub fn encrypt_inner(inner: &[u8], cfg: &Value, sk: &pgp::composed::PlainSessionKey, rng_key: u64) -> Option<Vec<u8>> {
     let mut rng = SimRng::new(rng_key, "c04enc", false);
     match sk {
         // legacy "Symmetrically Encrypted Data" container (tag 9, no integrity protection): recipients
